@@ -1,4 +1,334 @@
 import Jose.Jws
+import Jose.Lemmas.B64
+import Jose.Lemmas.Json
+import Jose.Props.C01
+/-
+  C03 — JWS sign/verify round trip; the signing input; the algorithm recorded.
+  Statements about `Jws.sigEntry` / `Jws.sig` (jose_jws_sig_io, find_alg,
+  encode_protected, the `sign.sig` hooks) and `Jws.verOne`.
+-/
+set_option linter.unusedSimpArgs false
+set_option linter.unusedVariables false
+
 namespace Jose.Props.C03
-theorem placeholder : (1 : Nat) = 1 := rfl
+open Jose Jose.Jws Jose.IO Jose.Json Jose.Entity Jose.B64 Tables
+open Jose.Props.C01
+
+/-! ### hypotheses on the primitives (laws, not axioms) -/
+
+/-- outputs of the primitives are byte strings of the expected sizes -/
+structure WfPrims (P : Prims) : Prop where
+  hmacBytes : ∀ h k m, Bytes (P.hmac h k m)
+  hmacLen : ∀ h k m, h ∈ ["S256", "S384", "S512"] → (P.hmac h k m).length = hashLen h
+  ecBytes : ∀ crv d dig rnd r s, P.ecdsaSign crv d dig rnd = some (r, s) → Bytes r ∧ Bytes s
+  rsaBytes : ∀ pss h n d m salt sg, P.rsaSign pss h n d m salt = some sg → Bytes sg
+
+/-- ECDSA correctness for one key pair: what is signed verifies, r and s have the curve's width -/
+def EcGood (P : Prims) (crv : String) (x y d : Bs) : Prop :=
+  ∀ dig rnd r s, P.ecdsaSign crv d dig rnd = some (r, s) →
+    (∀ len, crvLen crv = some len → r.length = len ∧ s.length = len) ∧ P.ecdsaVerify crv x y dig r s = true
+
+/-- RSASSA correctness for one key -/
+def RsaGood (P : Prims) (n e d : Bs) : Prop :=
+  ∀ pss h m salt sg, P.rsaSign pss h n d m salt = some sg → P.rsaVerify pss h n e m sg = true
+
+/-- the JSON layer's law for one protected header: what is dumped, encoded, decoded and
+    parsed again is the same object (checked on jansson by the b64.enc_dump/dec_load operations) -/
+def LoadDump (p : List (String × Json)) : Prop :=
+  B64.decLoad (some (B64.enc (B64.bytesOfString (Json.dump (.obj p))))) = some (.obj p)
+
+/-! ### what depends on which member -/
+
+theorem protectedObj_congr (a b : Json) (h : a.get? "protected" = b.get? "protected") :
+    protectedObj a = protectedObj b := by simp only [protectedObj, h]
+
+theorem jwsHdr_congr (a b : Json) (hp : a.get? "protected" = b.get? "protected")
+    (hh : a.get? "header" = b.get? "header") : jwsHdr a = jwsHdr b := by
+  simp only [jwsHdr, protectedObj_congr a b hp, hh]
+
+theorem prefixOf_set_other (kvs : List (String × Json)) (k : String) (v : Json) (hk : k ≠ "protected") :
+    prefixOf (.obj (setKV k v kvs)) = prefixOf (.obj kvs) := by
+  simp only [prefixOf, lookup_setKV_other k "protected" v kvs (Ne.symm hk)]
+
+/-- the decoded signature member of an object that was just given `enc sv` -/
+theorem sigBytes_set (kvs : List (String × Json)) (sv : Bs) (hb : Bytes sv) :
+    sigBytes (.obj (setKV "signature" (B64.enc sv) kvs)) = some sv := by
+  simp only [sigBytes, get?, lookup_setKV_same, bytesOfJson]
+  have := dec_enc_json sv hb
+  simp only [B64.enc] at this ⊢
+  exact this
+
+/-! ### find_alg: the algorithm chosen is the one the result names -/
+
+theorem findSign_name (halg : String) (a : AlgRec) (h : findSign halg = some a) : a.name = halg := by
+  simp only [findSign] at h
+  have := List.find?_some h
+  simpa using this
+
+/-- the merged header's `alg`, when `getStr?` finds a string there -/
+theorem optStr_of_getStr (hdr : Json) (n : String) (h : hdr.getStr? "alg" = some n) : optStr hdr "alg" = some (some n) := by
+  cases hdr with
+  | obj hk =>
+    simp only [getStr?, get?] at h
+    cases hl : lookup "alg" hk with
+    | none => simp [hl] at h
+    | some v =>
+      cases v <;> simp [hl, strVal?] at h
+      subst h
+      simp [optStr, hl]
+  | _ => simp [getStr?, get?] at h
+
+/-- recording an algorithm puts it where the merged header finds it first -/
+theorem recordAlg_spec (s s' : Json) (name : String) (hdr : Json) (hh : jwsHdr s = some hdr)
+    (h : recordAlg s name = some s') :
+    (∃ hdr1, jwsHdr s' = some hdr1 ∧ optStr hdr1 "alg" = some (some name)) ∧
+    s'.get? "header" = s.get? "header" ∧ (∀ t, s.get? "protected" ≠ some (.str t)) ∧ (∃ kvs1, s' = .obj kvs1) := by
+  cases s with
+  | obj kvs =>
+    simp only [recordAlg] at h
+    cases hp : lookup "protected" kvs with
+    | none =>
+      simp only [hp, Option.some.injEq] at h
+      subst h
+      refine ⟨?_, by simp [get?, lookup_setKV_other "protected" "header" _ kvs (by decide)], by simp [get?, hp], ⟨_, rfl⟩⟩
+      simp only [jwsHdr, protectedObj, get?, lookup_setKV_same]
+      rw [lookup_setKV_other "protected" "header" _ kvs (by decide)]
+      simp only [jwsHdr, protectedObj, get?, hp] at hh
+      cases hhd : lookup "header" kvs with
+      | none => exact ⟨_, rfl, by simp [optStr, lookup]⟩
+      | some hv =>
+        cases hv with
+        | obj hk' => exact ⟨_, rfl, by simp [optStr, lookup_updateMissingKV, lookup]⟩
+        | _ => simp [hhd] at hh
+    | some pv =>
+      cases pv with
+      | obj p =>
+        simp only [hp, Option.some.injEq] at h
+        subst h
+        refine ⟨?_, by simp [get?, lookup_setKV_other "protected" "header" _ kvs (by decide)], by simp [get?, hp], ⟨_, rfl⟩⟩
+        simp only [jwsHdr, protectedObj, get?, lookup_setKV_same]
+        rw [lookup_setKV_other "protected" "header" _ kvs (by decide)]
+        simp only [jwsHdr, protectedObj, get?, hp] at hh
+        cases hhd : lookup "header" kvs with
+        | none => exact ⟨_, rfl, by simp [optStr, lookup_setKV_same]⟩
+        | some hv =>
+          cases hv with
+          | obj hk' => exact ⟨_, rfl, by simp [optStr, lookup_updateMissingKV, lookup_setKV_same]⟩
+          | _ => simp [hhd] at hh
+      | _ => simp [hp] at h
+  | _ => simp [recordAlg] at h
+
+/-- C03/C15: after `find_alg` the merged header of the signature object names exactly
+    the algorithm that will be applied (taken from the header if it names one, otherwise
+    suggested from the key and then *recorded in the protected header*), the key declares
+    no other algorithm and is permitted to sign; an already-encoded protected header is
+    left alone -/
+theorem findAlgSig_spec (s jwk : Json) (a : AlgRec) (s1 : Json) (hobj : s.isObject = true)
+    (h : findAlgSig s jwk = some (a, s1)) :
+    findSign a.name = some a ∧
+    (∃ hdr1, jwsHdr s1 = some hdr1 ∧ optStr hdr1 "alg" = some (some a.name)) ∧
+    (∃ kalg, optStr jwk "alg" = some kalg ∧ keyAlgOk kalg a.name = true) ∧
+    Jwk.prm (some jwk) false a.p1 = true ∧
+    s1.get? "header" = s.get? "header" ∧
+    (∀ t, s.get? "protected" = some (.str t) → s1 = s) ∧
+    (∃ kvs1, s1 = .obj kvs1) := by
+  simp only [findAlgSig, Option.bind_eq_some_iff] at h
+  obtain ⟨hdr, hh, r, hr, kalg, hk, hrest⟩ := h
+  obtain ⟨halg, a', s'⟩ := r
+  split at hrest
+  · simp at hrest
+  · rename_i hka
+    split at hrest
+    · simp at hrest
+    · rename_i hprm
+      simp only [Option.some.injEq, Prod.mk.injEq] at hrest
+      obtain ⟨rfl, rfl⟩ := hrest
+      have hka' : keyAlgOk kalg halg = true := by simpa using hka
+      have hprm' : Jwk.prm (some jwk) false a'.p1 = true := by simpa using hprm
+      simp only [chooseAlg] at hr
+      cases hga : hdr.getStr? "alg" with
+      | some ha =>
+        simp only [hga, Option.map_eq_some_iff, Prod.mk.injEq] at hr
+        obtain ⟨a2, hf, rfl, rfl, rfl⟩ := hr
+        have hn := findSign_name ha a2 hf
+        cases s with
+        | obj kvs =>
+          exact ⟨by rw [hn]; exact hf, ⟨hdr, hh, by rw [hn]; exact optStr_of_getStr hdr ha hga⟩,
+            ⟨kalg, hk, by rw [hn]; exact hka'⟩, hprm', rfl, fun _ _ => rfl, ⟨kvs, rfl⟩⟩
+        | _ => simp [Json.isObject] at hobj
+      | none =>
+        simp only [hga, Option.bind_eq_some_iff, Option.map_eq_some_iff, Prod.mk.injEq] at hr
+        obtain ⟨sname, hs, a2, hf, s2, hrec, rfl, rfl, rfl⟩ := hr
+        have hn := findSign_name sname a2 hf
+        obtain ⟨g1, g2, g3, g4⟩ := recordAlg_spec s s2 a2.name hdr hh hrec
+        exact ⟨by rw [hn]; exact hf, g1, ⟨kalg, hk, by rw [hn]; exact hka'⟩, hprm', g2,
+          fun t ht => absurd ht (g3 t), g4⟩
+
+/-! ### the signing input and what is stored -/
+
+/-- C03 (signing input, RFC 7515 §5.1).  The bytes handed to the signing primitive are
+    exactly ASCII(protected') '.' payload, where protected' is the `protected` member of
+    the entry that is stored; the stored signature is the base64url of the primitive's output. -/
+theorem sigEntry_spec (P : Prims) (s jwk : Json) (pay rnd : Bs) (e : Json)
+    (h : sigEntryObj P s jwk pay rnd = some e) :
+    s.isObject = true ∧ ∃ a s1 kvs2 f pre sv,
+      findAlgSig s jwk = some (a, s1) ∧
+      encodeProtected s1 = some (.obj kvs2) ∧
+      sigLeaf P a.name jwk = some f ∧ prefixOf (.obj kvs2) = some pre ∧
+      f (pre ++ pay) rnd = some sv ∧
+      e = .obj (setKV "signature" (B64.enc sv) kvs2) ∧ prefixOf e = some pre := by
+  simp only [sigEntryObj] at h
+  split at h
+  · simp at h
+  · rename_i hobj
+    simp only [Option.bind_eq_some_iff] at h
+    obtain ⟨r, hf, s2, he, f, hl, pre, hp, sv, hsv, hfin⟩ := h
+    obtain ⟨a, s1⟩ := r
+    cases s2 with
+    | obj kvs2 =>
+      simp only [Option.some.injEq] at hfin
+      subst hfin
+      refine ⟨by simpa using hobj, a, s1, kvs2, f, pre, sv, hf, he, hl, hp, hsv, rfl, ?_⟩
+      rw [prefixOf_set_other kvs2 "signature" _ (by decide)]; exact hp
+    | _ => simp at hfin
+
+/-- C03 (protected verbatim): an already-encoded protected header is used and stored as it is -/
+theorem protected_verbatim (P : Prims) (kvs : List (String × Json)) (t : String) (jwk : Json) (pay rnd : Bs) (e : Json)
+    (hp : lookup "protected" kvs = some (.str t))
+    (h : sigEntry P (some (.obj kvs)) jwk pay rnd = some e) :
+    e.get? "protected" = some (.str t) ∧ prefixOf e = some (B64.bytesOfString t ++ [46]) := by
+  obtain ⟨_, a, s1, kvs2, f, pre, sv, h1, h2, h3, h4, h5, rfl, h7⟩ := sigEntry_spec P _ jwk pay rnd e h
+  obtain ⟨_, _, _, _, _, hsame, _⟩ := findAlgSig_spec (.obj kvs) jwk a s1 rfl h1
+  have hs1 : s1 = .obj kvs := hsame t (by simp [get?, hp])
+  subst hs1
+  simp only [encodeProtected, hp, Option.some.injEq] at h2
+  have : kvs2 = kvs := by injection h2 with h2; exact h2.symm
+  subst this
+  refine ⟨by simp [get?, lookup_setKV_other "signature" "protected" _ kvs2 (by decide), hp], ?_⟩
+  rw [prefixOf_set_other kvs2 "signature" _ (by decide)]
+  simp [prefixOf, hp]
+
+/-! ### round trip -/
+
+theorem family_hmac_hash (n h : String) (hf : family n = some (.hmac h)) : h ∈ ["S256", "S384", "S512"] := by
+  simp only [family] at hf
+  split at hf <;> simp_all
+
+theorem findSign_mem (n : String) (a : AlgRec) (h : findSign n = some a) : a ∈ signAlgs := by
+  simp only [findSign] at h
+  exact List.mem_of_find?_eq_some h
+
+/-- the merged header is not affected by encoding the protected header (given the JSON
+    layer's load∘dump law for that header) nor by setting the signature -/
+theorem jwsHdr_after_encode (s1 : Json) (kvs2 : List (String × Json)) (v : Json)
+    (he : encodeProtected s1 = some (.obj kvs2))
+    (hload : ∀ p, s1.get? "protected" = some (.obj p) → LoadDump p) :
+    jwsHdr (.obj (setKV "signature" v kvs2)) = jwsHdr s1 := by
+  have h1 : jwsHdr (.obj (setKV "signature" v kvs2)) = jwsHdr (.obj kvs2) := by
+    apply jwsHdr_congr
+    · simp [get?, lookup_setKV_other "signature" "protected" v kvs2 (by decide)]
+    · simp [get?, lookup_setKV_other "signature" "header" v kvs2 (by decide)]
+  rw [h1]
+  cases s1 with
+  | obj kvs1 =>
+    simp only [encodeProtected] at he
+    cases hp : lookup "protected" kvs1 with
+    | none => simp only [hp, Option.some.injEq] at he; injection he with he; subst he; rfl
+    | some pv =>
+      cases pv with
+      | str t => simp only [hp, Option.some.injEq] at he; injection he with he; subst he; rfl
+      | obj p =>
+        simp only [hp, Option.some.injEq] at he
+        injection he with he
+        subst he
+        have hl := hload p (by simp [get?, hp])
+        simp only [LoadDump, B64.enc] at hl
+        simp only [jwsHdr, protectedObj, get?, lookup_setKV_same, B64.enc, hl, hp,
+          lookup_setKV_other "protected" "header" _ kvs1 (by decide)]
+      | _ => simp [hp] at he
+  | _ => simp [encodeProtected] at he
+
+/-- **C03 (round trip, core).**  Whatever `jose_jws_sig` appends verifies, as a signature
+    object over the same payload under the same key — for every algorithm family, every
+    template form and every source of the algorithm — provided the key is also
+    permitted to verify, the primitives are correct for this key (`EcGood`/`RsaGood`; HMAC
+    needs no law) and the JSON layer re-reads the protected header it wrote. -/
+theorem sign_then_verify (P : Prims) (hwf : WfPrims P) (s jwk : Json) (pay rnd : Bs) (e : Json)
+    (h : sigEntryObj P s jwk pay rnd = some e)
+    (hmay : ∀ a ∈ signAlgs, Jwk.prm (some jwk) false a.p2 = true)
+    (hload : ∀ a s1 p, findAlgSig s jwk = some (a, s1) → s1.get? "protected" = some (.obj p) → LoadDump p)
+    (hec : ∀ key d, ecKeyOf P jwk = some key → key.d = some d → EcGood P key.crv key.x key.y d)
+    (hrsa : ∀ key d, rsaSigKey jwk = some key → key.d = some d → RsaGood P key.n key.e d) :
+    pairOk P e jwk pay = true := by
+  obtain ⟨hobj, a, s1, kvs2, f, pre, sv, h1, h2, h3, h4, h5, rfl, h7⟩ := sigEntry_spec P s jwk pay rnd e h
+  obtain ⟨g1, ⟨hdr1, g2, g3⟩, ⟨kalg, g4, g5⟩, g6, _, _, _⟩ := findAlgSig_spec s jwk a s1 hobj h1
+  have hhdr := jwsHdr_after_encode s1 kvs2 (B64.enc sv) h2 (fun p hp => hload a s1 p h1 hp)
+  have hsel : verSelect (some a.name) kalg = some a.name := by
+    cases kalg with
+    | none => rfl
+    | some k => simp only [keyAlgOk, beq_iff_eq] at g5; subst g5; simp [verSelect]
+  -- the verification leaf accepts what the signing leaf produced
+  have hleaf : ∃ f', verLeaf P a.name (.obj (setKV "signature" (B64.enc sv) kvs2)) jwk = some f' ∧
+      f' (pre ++ pay) = true := by
+    simp only [sigLeaf] at h3
+    simp only [verLeaf]
+    cases hfam : family a.name with
+    | none => simp [hfam] at h3
+    | some fam =>
+      cases fam with
+      | hmac hs =>
+        simp only [hfam, Option.map_eq_some_iff] at h3
+        obtain ⟨k, hk, rfl⟩ := h3
+        simp only [Option.some.injEq] at h5
+        subst h5
+        simp only [hmacVer, hk, Option.map_some]
+        refine ⟨_, rfl, ?_⟩
+        simp only [sigBytes_set kvs2 _ (hwf.hmacBytes hs k (pre ++ pay)),
+          hwf.hmacLen hs k (pre ++ pay) (family_hmac_hash a.name hs hfam), beq_self_eq_true, Bool.and_self]
+      | ecdsa hs =>
+        simp only [hfam] at h3
+        cases hh : P.hash hs with
+        | none => simp [hh] at h3
+        | some hfun =>
+          cases hk : ecKeyOf P jwk with
+          | none => simp [hh, hk] at h3
+          | some key =>
+            simp only [hh, hk, Option.some.injEq] at h3
+            subst h3
+            cases hd : key.d with
+            | none => simp [hd] at h5
+            | some d =>
+              simp only [hd, Option.map_eq_some_iff] at h5
+              obtain ⟨⟨r, sg⟩, hsign, rfl⟩ := h5
+              obtain ⟨hlen, hver⟩ := hec key d hk hd (hfun (pre ++ pay)) rnd r sg hsign
+              obtain ⟨_, hcl, _⟩ := ecKey_valid P jwk key hk
+              obtain ⟨hr, hsl⟩ := hlen key.len hcl
+              obtain ⟨hbr, hbs⟩ := hwf.ecBytes key.crv d _ rnd r sg hsign
+              have hb : Bytes (r ++ sg) := by
+                intro x hx
+                rcases List.mem_append.mp hx with hx | hx
+                · exact hbr x hx
+                · exact hbs x hx
+              simp only [ecdsaVer, hh, hk, Option.bind_some, Option.map_some]
+              refine ⟨_, rfl, ?_⟩
+              simp only [sigBytes_set kvs2 _ hb, List.length_append, hr, hsl]
+              have h2l : key.len + key.len = 2 * key.len := by omega
+              simp only [h2l, beq_self_eq_true, Bool.true_and]
+              rw [← hr, List.take_left', List.drop_left'] <;> first | rfl | exact hver
+      | rsa pss hs =>
+        simp only [hfam, Option.map_eq_some_iff] at h3
+        obtain ⟨key, hk, rfl⟩ := h3
+        cases hd : key.d with
+        | none => simp [hd] at h5
+        | some d =>
+          simp only [hd] at h5
+          have hver := hrsa key d hk hd pss hs (pre ++ pay) rnd sv h5
+          simp only [rsaVer, hk, Option.map_some]
+          refine ⟨_, rfl, ?_⟩
+          simp only [sigBytes_set kvs2 _ (hwf.rsaBytes pss hs key.n d _ rnd sv h5), hver]
+  obtain ⟨f', hf', hok⟩ := hleaf
+  have hprm := hmay a (findSign_mem a.name a g1)
+  simp only [pairOk, verOne, Json.isObject, Bool.not_true, Bool.false_eq_true, if_false, g4, hhdr, g2, g3, hsel, g1,
+    hprm, hf', h7, Option.bind_some, leafStage, V, hok, if_true, Option.isSome_some]
+
 end Jose.Props.C03
